@@ -19,7 +19,7 @@ CONFIG = {
     ],
     "mult_search": 4,
     "refuted": [],
-    "partial": ["C09_full_statement is not proved; proved: totality, formatter accepts what the parser accepts, tokenSource/lexer inverse pairs for STRING, REGEX, DESCRIPTION, COMMENT, BLOCK_COMMENT, separation lemmas for identifiers and integers, fixed-point property of the description re-flow"],
+    "partial": ["C09_full_statement is not proved; proved: totality, formatter accepts what the parser accepts, tokenSource/lexer inverse pairs for STRING, REGEX, DESCRIPTION, COMMENT, BLOCK_COMMENT, separation lemmas for identifiers and integers, token round trip for every token the lexer can emit (C09_token_roundtrip), line-level relex for every renderable single-line fragment (C09_line_relex, C09_fragments_renderable), fixed-point property of the description re-flow"],
 }
 
 MANIFEST = {
